@@ -327,6 +327,12 @@ func runC19(c *Ctx) {
 			}
 		}
 		ok2, why := errCheckedAndReturned(ci)
+		if !ok2 && n == "(*github.com/miekg/dns.Msg).Unpack" && unpackErrorSkipsEntry(ci) {
+			// D29: the bytes of one entry inside an intact (gzip- and protobuf-checked) block do not unpack: the entry is
+			// skipped, never stored; truncation and corruption are reported by the layers around it
+			c.ok(key, instrPos(in), "an entry that does not unpack is skipped, not stored")
+			return
+		}
 		if ok2 {
 			c.ok(key, instrPos(in), "error checked and returned")
 		} else {
@@ -584,11 +590,27 @@ func runC19(c *Ctx) {
 						}
 					}
 				}
+				// D28: an entry that cannot be packed (Unpack accepts messages Pack refuses) is logged and left out;
+				// D32: so is an entry that alone exceeds the block length the reader accepts
+				for _, g := range guardsOfInstr(r) {
+					if cm, ok := g.asCmp(); ok && cm.Op == token.NEQ && isNilConst(cm.Y) {
+						if ex, isE := cm.X.(*ssa.Extract); isE {
+							if cl, isC := ex.Tuple.(*ssa.Call); isC && callName(cl) == "(*github.com/miekg/dns.Msg).Pack" {
+								expired = true
+							}
+						}
+					}
+					if cm, ok := g.asCmp(); ok && cm.Op == token.GTR {
+						if n, isC := constInt(cm.Y); isC && n == limit {
+							expired = true
+						}
+					}
+				}
 				if !expired {
 					bad = p.pos(instrPos(r))
 				}
 			}
-			c.check(bad == "", "writer-appends-every-live-entry", instrPos(app), "only entries whose cache expiry has passed are left out", "the writer skips entries for another reason than 'cache expiry passed' (return nil before the append at "+bad+"): live entries (e.g. all lazily kept ones) are missing from the dump")
+			c.check(bad == "", "writer-appends-every-live-entry", instrPos(app), "only entries whose cache expiry has passed are left out", "the writer skips entries for another reason than 'cache expiry passed', 'cannot be packed' or 'bigger than a block' (return nil before the append at "+bad+"): live entries (e.g. all lazily kept ones) are missing from the dump")
 		}
 		// the final flush
 		var lastFlush *ssa.Call
@@ -782,6 +804,20 @@ func checkDumpReaderFields(c *Ctx, rd *ssa.Function) {
 	if v, ok := itemWritten["resp"]; ok {
 		// a fresh message that Unpack(GetMsg()) was called on
 		good := false
+		// D16: what is stored is copyNoOpt(<the unpacked message>): a dump is external input, and a stored message never
+		// carries an OPT record (dns.Copy does not deep-copy all EDNS0 options, Pack writes into the OPT)
+		stripped := false
+		if cl, ok := v.(*ssa.Call); ok {
+			if sc := staticCallee(cl); sc != nil && sc.Name() == "copyNoOpt" && len(cl.Call.Args) == 1 {
+				stripped = true
+				v = cl.Call.Args[0]
+			}
+		}
+		if !stripped {
+			c.fail("item-field:resp-no-opt", valuePos(v), "readDump stores the unpacked message as it is, not copyNoOpt of it: an OPT record in a loaded dump is stored, shared between every hit (its options are copied shallowly) and written to by writeDump's Pack while lookups copy it")
+		} else {
+			c.ok("item-field:resp-no-opt", valuePos(v), "the loaded message passes through copyNoOpt")
+		}
 		if al, ok := v.(*ssa.Alloc); ok {
 			for _, r := range referrers(al) {
 				if cl, ok := r.(*ssa.Call); ok && callName(cl) == "(*github.com/miekg/dns.Msg).Unpack" && cl.Call.Args[0] == ssa.Value(al) {
@@ -795,6 +831,9 @@ func checkDumpReaderFields(c *Ctx, rd *ssa.Function) {
 				switch x := r.(type) {
 				case *ssa.DebugRef:
 				case *ssa.Call:
+					if sc := staticCallee(x); sc != nil && sc.Name() == "copyNoOpt" {
+						continue
+					}
 					if callName(x) != "(*github.com/miekg/dns.Msg).Unpack" {
 						good = false
 					}
@@ -857,7 +896,18 @@ func checkDumpReaderFields(c *Ctx, rd *ssa.Function) {
 			}
 			extra = guardText(g)
 		}
-		if sk, _ := iterationCanSkip(storeCall, nil); sk && extra == "" {
+		// D29: an entry whose bytes do not unpack is logged and skipped (dns.Msg.Pack can emit what Unpack refuses; one such
+		// entry must not cost the others) — the only skip allowed is the error edge of that very Unpack call
+		unpackErrSkip := func(iff *ssa.If, truth bool) bool {
+			g := guard{Cond: iff.Cond, Truth: truth, If: iff}
+			cm, ok := g.asCmp()
+			if !ok || !isNilConst(cm.Y) || cm.Op != token.NEQ {
+				return false
+			}
+			cl, ok := cm.X.(*ssa.Call)
+			return ok && callName(cl) == "(*github.com/miekg/dns.Msg).Unpack"
+		}
+		if sk, _ := iterationCanSkip(storeCall, unpackErrSkip); sk && extra == "" {
 			extra = "a condition that lets an iteration of the entry loop go on to the next entry without storing"
 		}
 		c.check(extra == "", "store-every-entry", instrPos(storeCall), "every decoded entry is handed to the store (expiry is judged there)",
@@ -910,4 +960,36 @@ func checkDumpWriterPairing(c *Ctx) {
 	} else {
 		c.fail("dump-pair:msg", wd.Pos(), "writeDump never sets the entry's message")
 	}
+}
+
+
+// unpackErrorSkipsEntry: the error result of this Unpack call is tested, and on the error edge no backend Store (and
+// no use of the message) is reachable before the loop goes on to the next entry.
+func unpackErrorSkipsEntry(ci *ssa.Call) bool {
+	hdr := innermostLoopHeader(ci.Block())
+	if hdr == nil {
+		return false
+	}
+	found := false
+	for _, r := range referrers(ci) {
+		bo, ok := r.(*ssa.BinOp)
+		if !ok || !isNilConst(bo.Y) || (bo.Op != token.NEQ && bo.Op != token.EQL) {
+			continue
+		}
+		for _, r2 := range referrers(bo) {
+			iff, ok := r2.(*ssa.If)
+			if !ok {
+				continue
+			}
+			errBlk := succOnTruth(iff, bo.Op == token.NEQ)
+			found = true
+			if _, stores := reachFromBlock(errBlk, func(x ssa.Instruction) bool {
+				cl, ok := x.(*ssa.Call)
+				return ok && callName(cl) == "(*pkg/cache.Cache).Store"
+			}, func(x ssa.Instruction) bool { return x.Block() == hdr }); stores {
+				return false
+			}
+		}
+	}
+	return found
 }
